@@ -299,6 +299,9 @@ struct HistoryCfg {
     ops_per_writer: usize,
     intensity: u32,
     soft_reset: bool,
+    /// the IPv6 family does not exist in the RIB until the first subscriber is about to
+    /// subscribe: the first routes ever of a family race with the subscribe call
+    family_onset: bool,
 }
 
 struct SubResult {
@@ -314,6 +317,7 @@ fn run_history(seed: u64, cfg: &HistoryCfg, rep: &mut Report) {
     let stop_ctl = Arc::new(AtomicBool::new(false));
     let tag = Arc::new(AtomicU64::new(1));
     let writers_done = Arc::new(AtomicU64::new(0));
+    let v6_on = Arc::new(AtomicBool::new(!cfg.family_onset));
     crate::verif_hooks::install(seed, cfg.intensity);
 
     let mut handles = Vec::new();
@@ -322,6 +326,8 @@ fn run_history(seed: u64, cfg: &HistoryCfg, rep: &mut Report) {
         let tag = tag.clone();
         let writers_done = writers_done.clone();
         let n = cfg.ops_per_writer;
+        let v6_on = v6_on.clone();
+        let onset = cfg.family_onset;
         handles.push(std::thread::spawn(move || {
             crate::verif_hooks::set_thread_id(1 + w as u32);
             let mut rng = Rng::new(seed ^ (0x1000 + w as u64));
@@ -330,7 +336,24 @@ fn run_history(seed: u64, cfg: &HistoryCfg, rep: &mut Report) {
             let mut ops = Vec::new();
             for _ in 0..n {
                 let k = rng.below(100);
-                let (fam, nlri) = rng.pick(&pfx).clone();
+                let (mut fam, mut nlri) = rng.pick(&pfx).clone();
+                if fam == Family::IPV6 && !v6_on.load(Ordering::SeqCst) {
+                    // the family is not born yet: wait a little for the subscriber's signal,
+                    // otherwise work on IPv4
+                    if onset {
+                        for _ in 0..50 {
+                            if v6_on.load(Ordering::SeqCst) {
+                                break;
+                            }
+                            std::thread::yield_now();
+                        }
+                    }
+                    if !v6_on.load(Ordering::SeqCst) {
+                        let (f4, n4) = pfx.iter().find(|(f, _)| *f == Family::IPV4).unwrap().clone();
+                        fam = f4;
+                        nlri = n4;
+                    }
+                }
                 let pid = rng.below(2) as u32;
                 if k < 55 {
                     let t = tag.fetch_add(1, Ordering::Relaxed) as u32;
@@ -424,12 +447,17 @@ fn run_history(seed: u64, cfg: &HistoryCfg, rep: &mut Report) {
     for s in 0..cfg.subscribers {
         let tables = tables.clone();
         let stop = stop.clone();
+        let v6_on = v6_on.clone();
         subs.push(std::thread::spawn(move || {
             crate::verif_hooks::set_thread_id(100 + s as u32);
             let mut rng = Rng::new(seed ^ (0x9000 + s as u64));
             // subscribe at a random point of the history
             for _ in 0..rng.below(400) {
                 std::thread::yield_now();
+            }
+            // family onset: the IPv6 family may come into existence from now on
+            if s == 0 {
+                v6_on.store(true, Ordering::SeqCst);
             }
             let mut resub = 0u64;
             let mut sub: Subscription = tables.subscribe(true);
@@ -612,7 +640,7 @@ pub(crate) fn run_entry() {
     } else {
         params.n(400, 6000)
     };
-    for _ in 0..n {
+    for hist_no in 0..n {
         if !rep.in_budget() {
             break;
         }
@@ -624,6 +652,7 @@ pub(crate) fn run_entry() {
                 ops_per_writer: 6,
                 intensity: 60,
                 soft_reset: true,
+                family_onset: hist_no % 2 == 1,
             }
         } else {
             HistoryCfg {
@@ -633,8 +662,13 @@ pub(crate) fn run_entry() {
                 ops_per_writer: rng.range(15, 40) as usize,
                 intensity: *rng.pick(&[0u32, 30, 60, 90]),
                 soft_reset: rng.chance(2, 3),
+                // every third history (decided without touching the generator stream)
+                family_onset: hist_no % 3 == 2,
             }
         };
+        if cfg.family_onset {
+            rep.count("histories-with-family-onset");
+        }
         run_history(rng.next_u64(), &cfg, &mut rep);
     }
     let _ = rep.finish();
